@@ -249,7 +249,10 @@ Plan(db, e) ==
                             /\ ValidKeyArg(tbl, e.key)
               IN IF ~static THEN Refuse(db, GenErr)
                  ELSE LET O == CondDecision(cl, e, StoredOrEmpty(tbl, e.key))
-                      IN [ocs |-> OutcomeOfCond(O), cls |-> GenErr,
+                          \* a ReturnValues other than NONE / ALL_OLD: DynamoDB refuses the request, the code at the pinned commit ignores the
+                          \* field; either - but a refused request deletes nothing (the judge compares the observation with the unchanged state)
+                          odd == "retvals" \in DOMAIN e /\ e.retvals \notin {"", "NONE", "ALL_OLD"}
+                      IN [ocs |-> OutcomeOfCond(O) \cup (IF odd THEN {"err"} ELSE {}), cls |-> GenErr,
                           next |-> WithTable(db, e.c, e.t, DelFrom(tbl, e.key))]
 
     [] e.op = "UpdateItem" ->
